@@ -137,6 +137,7 @@ Inductive command :=
 | CCopy (ps : list nat) (dst : N)
 | CMove (ps : list nat) (dst : N)
 | CFetchBody (ps : list nat)       (* BODY[] : sets \Seen *)
+| CFetchFlagsBody (ps : list nat)  (* (FLAGS BODY[]) : as above, and every message reports its (new) flags *)
 | CProbe                           (* UID FETCH 1:* (FLAGS) *)
 | CSearch                          (* SEARCH ALL *)
 | CNoop
@@ -347,7 +348,7 @@ Definition do_cmd (w : world) (i : nat) (c : command) : world * list resp * outc
                     let '(w3, items) := add_rows w2 dst tomove in
                     ret (finish w3 i (ups1 ++ [UExists dst items (Some i)] ++ map (UExpunge sel) tomove) false (sel_permits "Move"))
               end
-          | CFetchBody ps =>
+          | CFetchBody ps | CFetchFlagsBody ps =>
               match msgs_at sn ps with
               | None => (w, [], ONo)
               | Some xs =>
@@ -355,9 +356,12 @@ Definition do_cmd (w : world) (i : nat) (c : command) : world * list resp * outc
                   (* the fetch itself adds \Seen to the snapshot entries and reports the new flags *)
                   let unseen := filter (fun x => negb (fl_mem fl_seen (sm_flags x))) xs in
                   let sn1 := fold_left (fun acc x => snap_set_flags (sm_id x) (fl_add (sm_flags x) [fl_seen]) acc) unseen sn in
+                  let all_flags := match c with CFetchFlagsBody _ => true | _ => false end in
                   let data := map (fun x => match snap_seq_of (sm_id x) sn 1 with
-                                            | Some k => PFetch k (fl_add (sm_flags x) [fl_seen]) None
-                                            | None => PFetch 0 [] None end) unseen in
+                                            | Some k => PFetch k (if fl_mem fl_seen (sm_flags x) then sm_flags x
+                                                                  else fl_add (sm_flags x) [fl_seen]) None
+                                            | None => PFetch 0 [] None end)
+                                  (if all_flags then xs else unseen) in
                   let s1 := mkSess (ss_sel s) (mkS sn1 (s_res (ss_st s))) (ss_queue s) false in
                   let w0 := put_sess i s1 w in
                   let parts := store_parts w0 ms FAdd [fl_seen] in
